@@ -1209,13 +1209,21 @@ class Normaliser(object):
                         setattr(s_, fld, rewrite(b))
                 for h in getattr(s_, 'handlers', []) or []:
                     h.body = rewrite(h.body)
+                # `a, b = (x, y) if c else (z, w)`: the statement form first (the test is evaluated once either way)
+                if isinstance(s_, ast.Assign) and len(s_.targets) == 1 and isinstance(s_.targets[0], ast.Tuple) and isinstance(s_.value, ast.IfExp) and \
+                        isinstance(s_.value.body, ast.Tuple) and isinstance(s_.value.orelse, ast.Tuple) and \
+                        len(s_.value.body.elts) == len(s_.value.orelse.elts) == len(s_.targets[0].elts):
+                    arm = lambda v: ast.copy_location(ast.Assign(targets=[copy.deepcopy(s_.targets[0])], value=v), s_)
+                    st_if = ast.copy_location(ast.If(test=s_.value.test, body=rewrite([arm(s_.value.body)]), orelse=rewrite([arm(s_.value.orelse)])), s_)
+                    out.append(st_if)
+                    norm_.inlined.append(('parallel conditional assignment', '', 'to-statement'))
+                    continue
                 if isinstance(s_, ast.Assign) and len(s_.targets) == 1 and isinstance(s_.targets[0], ast.Tuple) and isinstance(s_.value, ast.Tuple) and \
                         len(s_.targets[0].elts) == len(s_.value.elts) and all(isinstance(t, ast.Name) for t in s_.targets[0].elts) and \
                         not any(isinstance(v, ast.Starred) for v in s_.value.elts):
                     tn = {t.id for t in s_.targets[0].elts}
                     if len(tn) == len(s_.targets[0].elts) and not any(isinstance(x, ast.Name) and x.id in tn for v in s_.value.elts for x in ast.walk(v)) and \
-                            all(_pure(v) or isinstance(v, (ast.Dict, ast.List, ast.Set, ast.Constant)) and not any(isinstance(x, ast.Call) for x in ast.walk(v))
-                                for v in s_.value.elts):
+                            all(not any(isinstance(x, (ast.Call, ast.Yield, ast.Await, ast.NamedExpr)) for x in ast.walk(v)) for v in s_.value.elts):
                         for t, v in zip(s_.targets[0].elts, s_.value.elts):
                             out.append(ast.copy_location(ast.Assign(targets=[t], value=v), s_))
                         norm_.inlined.append(('parallel assignment', '', 'split'))
